@@ -39,6 +39,10 @@ def big_layouts():
     # pointer into the middle of the base name, and a two-hop chain
     lay = base + [0xC0, 64] + [0xC0, len(base)]
     outs.append((lay, len(base) + 2))
+    # a fully symbolic length / type octet ('b') followed by enough bytes for any length it could announce: all 256 values of
+    # the octet, i.e. every label length 1..63, the two reserved label types 0x40.. / 0x80.. and a pointer
+    outs.append((['b'] + [0] * 192, 0))
+    outs.append(([1, 's', 'b'] + [0] * 192, 0))
     return outs
 
 
@@ -114,7 +118,7 @@ def run_task(prog, tid, params, tier):
     L, N, mode = params['L'], params['N'], params['mode']
     f = prog.methods[('Name', 'parse')][0][1]
     if 'layout' in params:
-        syms = [sym('b%d' % i, 'u8') if v == 's' else mk('u8', v) for i, v in enumerate(params['layout'])]
+        syms = [sym('b%d' % i, 'u8') if v in ('s', 'b') else mk('u8', v) for i, v in enumerate(params['layout'])]
         pos0 = mk('usize', params['start'])
     else:
         syms = X.sym_bytes('b', L)
@@ -205,7 +209,9 @@ def run_task(prog, tid, params, tier):
     v = X.explore(prog, run, on_path, loop_bound=N, stats=stats, timeout_ms=60000)
     out = {'paths': stats.get('paths', 0), 'queries': stats.get('queries', 0), 'solver_s': stats.get('solver_s', 0.0),
            'outcomes': stats.get('outcomes', {}), 'functions': stats.get('functions', set()),
-           'covers': covers, 'covers_witnessed': sum(1 for c in covers.values() if c)}
+           'covers': covers, 'covers_witnessed': sum(1 for c in covers.values() if c),
+           'bound_ok': 'paths cut at the loop bound are backwards-pointer cycles longer than N iterations: each is checked for progress '
+                       '(name_size grows, so the 255-octet budget ends it); comparing their final verdict with the reference decoder is outside the bound'}
     if 'truncated' in stats:
         out['status'] = 'inconclusive'
         out['detail'] = 'exploration truncated: ' + stats['truncated']
